@@ -2,9 +2,10 @@
 from vlib.core import Stage
 
 ID = "C17"
+# ~0.5 ms (plain) / ~4 ms (asan) per quick case, ~4 / ~12 ms per thorough case (larger grids) on one core
 STAGES = [
-    Stage("indexing", "p17_indexing", "plain", {"quick": 8000, "thorough": 60000}),
-    Stage("indexing-asan", "p17_indexing", "asan", {"quick": 2000, "thorough": 20000}, offset=1000000),
+    Stage("indexing", "p17_indexing", "plain", {"quick": 8000, "thorough": 100000}),
+    Stage("indexing-asan", "p17_indexing", "asan", {"quick": 2000, "thorough": 30000}, offset=1000000),
 ]
 
 # Exact sub-checks: the driver reports the NUMBER OF MISMATCHES found on a grid (every node / every offset is compared
@@ -12,47 +13,55 @@ STAGES = [
 # Numerical sub-checks: |library value - coordinate difference| in units of the rounding of the coordinates
 # (eps*r_{i+1} for radial distances, eps*2pi for angular ones).  The library stores exactly the rounded difference of
 # the two coordinates, so the observed value is 0; 4 units is what any formula that "agrees with the coordinate arrays"
-# up to rounding stays below, while an off-by-one index or a missing wrap gives >= 1e9 units.
+# up to rounding stays below, while an off-by-one index or a missing wrap gives >= 1e9 units (seen: 1e13..1e14).
 THRESHOLDS = {
     "construction_survives": 0.5,            # constructor / coarseningGrid ran to completion in a forked child
-    "accessors_match_coordinates": 0.5,
+    "accessors_match_coordinates": 0.5,      # nr, ntheta, numberOfNodes, radius(i), theta(j), radii(), angles()
     "index_is_bijection": 0.5,               # index(i,j) in 0..N-1, no duplicate, onto
     "multiindex_inverts_index": 0.5,         # both multiIndex forms applied to index(i,j)
     "index_inverts_multiindex": 0.5,         # index / fastIndex / index(MultiIndex) applied to multiIndex(k), k=0..N-1
     "index_forms_agree": 0.5,                # fastIndex == index(int,int) == index(MultiIndex); multiIndex forms agree
     "wrap_theta_index": 0.5,                 # vs ((u mod n)+n) mod n in 64-bit arithmetic
     "unwrapped_index_periodic": 0.5,         # index(i,u) == index(i, u mod n)
-    "split_partitions_nodes": 0.5,
-    "auto_split_min_sizes": 0.5,
-    "adjacent_neighbors": 0.5,
+    "split_partitions_nodes": 0.5,           # counts add up, circle nodes are exactly [0, circles*ntheta), radius separates
+    "auto_split_min_sizes": 0.5,             # automatic split: >=3 circles and >=3 radial nodes (nr>=6), 2 / 3 for nr=5
+    "adjacent_neighbors": 0.5,               # and polarCoordinates of node and neighbours
     "diagonal_neighbors": 0.5,
-    "coarsening_keeps_every_second": 0.5,
+    "coarsening_keeps_every_second": 0.5,    # sizes, radii[2i], angles[2j], all four boundaries, bit-equal
     "radial_spacing_vs_coordinates": 4.0,
-    "angular_spacing_vs_coordinates": 4.0,
+    "angular_spacing_vs_coordinates": 4.0,   # in-range, unwrapped near (-2n-1..3n) and far offsets
     "neighbor_distances_vs_coordinates": 4.0,
 }
-MIN_NONTRIVIAL = {"quick": 60, "thorough": 150}
+MIN_NONTRIVIAL = {"quick": 120, "thorough": 200}
 
-RULE = ("cases drawn from VERIF_SEED: 90% coordinate arrays (nr = 2,3,4,5 with 14% weight, 2^k+1 with 28%, else 6..40 "
-        "[72 thorough]; ntheta even, 2..128 [256] power of two (40%) or not; uniform/geometric/random radii, "
-        "uniform/random antipodal angles; splitting radius automatic (30%), below R0 (incl. 0, negative, -inf), equal "
-        "to R0, between nodes, equal to a node, equal to Rmax, above Rmax (incl. 1e300, +inf)), 10% parametric "
-        "constructor (uniform, divideBy2 0..2); every grid of the coarsening chain down to the last grid the "
-        "constructor accepts is checked exhaustively (all nodes, all offsets in +-5 ntheta, 90 far offsets up to "
-        "+-2^30, INT_MIN/INT_MAX); signature = (nr class [2,3,4,5,6-8,9-16,17-32,33+], ntheta power of two?, split "
-        "class, source, levels in the chain capped at 4); non-trivial = grid constructed, both the circle and the "
+RULE = ("cases drawn from VERIF_SEED: 90% coordinate arrays (nr = 2,3,4,5 with 14% weight, 2^k+1 (3..33 [129 thorough]) "
+        "28%, 6..8 8%, else 6..40 [192]; ntheta even: power of two 2..128 [1024] (40%), multiple of 4 or any even number "
+        "up to 96 [768]; at most 6000 [80000] nodes; uniform/geometric/random radii, R0/Rmax from 1e-8 to 0.5, Rmax 1e-3.."
+        "1e3; uniform/random antipodal angles; splitting radius automatic (30%), below R0 (incl. 0, negative, -inf, "
+        "predecessor of R0), equal to R0, between two nodes (incl. 1e-12 from either), equal to a node, equal to Rmax, "
+        "above Rmax (incl. successor of Rmax, 1e300, +inf)), 10% parametric constructor (uniform division, nr_exp 1..4 "
+        "[6], ntheta_exp -1..6 [8], divideBy2 0..2); every grid of the coarsening chain down to the last grid the "
+        "constructor accepts (nr odd >= 3, ntheta multiple of 4) is checked like the fine one: ALL nodes, all angular "
+        "offsets in +-5 ntheta, 90 far offsets (random in +-2^30, far multiples of ntheta +-1, +-2^30 +-1, "
+        "INT_MIN/INT_MAX +-1); signature = (nr class [2,3,4,5,6-8,9-16,17-32,33+], ntheta power of two?, split class "
+        "[7], source, number of grids in the chain capped at 4); non-trivial = grid constructed, both the circle and the "
         "radial section non-empty, at least 12 nodes")
 ASSUMPTIONS = [
-    "the expected neighbour / spacing / wrap values are computed in the harness from the input coordinate arrays only",
-    "sampling: array sizes above 72 x 256 and grids built by the anisotropic or the file constructor are not covered",
-    "where the requested splitting radius equals a node radius either side is accepted for that node",
+    "expected neighbour / spacing / wrap values are computed in the harness from the input coordinate arrays only; "
+    "for the parametric constructor the arrays are the ones the grid reports (radii(), angles())",
+    "sampling: array sizes above 192 x 1024 (80000 nodes) and grids from the anisotropic or the file constructor are not covered",
+    "where the requested splitting radius equals a node radius either side is accepted for that node "
+    "(header comment and implementation differ on this case; the property does not fix it)",
+    "the numbering layout inside a section (theta-major / r-major) is not prescribed, only what the property states",
 ]
-TECHNIQUE = ("runtime monitor with exhaustive per-grid enumeration: every index/multi-index/wrap/neighbour/spacing/split "
-             "query of the real PolarGrid on generated grids and their coarsening chains compared with values derived "
-             "from the coordinate arrays; constructions probed in a forked child; plain and ASan/UBSan builds, asserts on")
-LEVEL_TEXT = ("sampled executions judged by an oracle: 500 (quick) / 50 000 (thorough) generated grids plus their "
-              "coarsening chains; on each grid ALL nodes and all angular offsets in +-5 ntheta (plus far samples) are "
-              "compared exactly (integer results: any mismatch counts; distances: 4 rounding units of the coordinates, "
-              "observed 0)")
-LEVEL_NOTE = ("covers only generated grid shapes (nr <= 72, ntheta <= 256); the numbering layout inside a section is "
-              "not prescribed, only bijectivity, agreement of all forms, the exact split and geometric neighbourhood")
+TECHNIQUE = ("runtime monitor with exhaustive per-grid enumeration: every index / multi-index / wrap / neighbour / spacing / "
+             "split query of the real PolarGrid on generated grids and on their coarsening chains is compared with values "
+             "derived from the coordinate arrays; constructions are probed in a forked child so that an abort is an "
+             "observation; plain (-O2) and ASan/UBSan builds, assertions on")
+LEVEL_TEXT = ("sampled executions judged by an oracle: 10 000 (quick) / 130 000 (thorough) generated grids plus their "
+              "coarsening chains; on each grid ALL nodes and all angular offsets in +-5 ntheta (plus far samples up to "
+              "INT_MIN/INT_MAX) are compared exactly (integer results: any mismatch counts; distances: 4 rounding units "
+              "of the coordinates, observed 0)")
+LEVEL_NOTE = ("covers only generated grid shapes (nr <= 192, ntheta <= 1024, <= 80000 nodes); a node whose radius equals "
+              "the requested splitting radius may be on either side; a break that keeps all index functions mutually "
+              "consistent and bijective but changes the layout inside a section is not reported")
